@@ -362,12 +362,18 @@ def e2e_scenarios(rnd, count, big):
                 "out": size(), "err": size(), "up": size() if rnd.random() < 0.6 else 0,
                 "styles": [rnd.choice(["small", "mixed", "packet", "tiny"]) for _ in range(3)],
                 "rstyles": [rnd.choice(["small", "mixed", "packet", "tiny"]) for _ in range(3)],
-                "combine": rnd.choice(["off", "off", "before", "mid", "mid"]),
+                # late = the peer's exit status, EOF (and CLOSE) are awaited first, then combining is switched
+                # on and everything is read ("run a command, then read all output combined")
+                "combine": rnd.choice(["off", "off", "before", "mid", "mid", "late"]),
+                "late_close": rnd.random() < 0.5,
                 "combine_after": rnd.random(),          # fraction of stdout read before the switch
                 "status": rnd.choice([0, 1, 2, 127, 255, rnd.randint(0, 2 ** 31 - 1)]),
                 "seed": rnd.randrange(1 << 30),
             })
         chans[0]["status"] = rnd.randint(256, 2 ** 31 - 1)      # every scenario carries a status wider than a byte
+        if i == 1:                                              # every batch has a late switch with stderr buffered
+            chans[0]["combine"] = "late"
+            chans[0]["err"] = max(chans[0]["err"], rnd.randint(1, 5000))
         # tiny chunks only on small streams (bounds the number of trace events)
         for ch in chans:
             for k, name in enumerate(("out", "err", "up")):
@@ -496,7 +502,8 @@ def run_e2e(scn, watchdog=120.0):
             jobs.append({"c": c, "s": s, "w": w, "r": r, "down": down, "up": up, "ev": (ev_out, ev_err, ev_up),
                          "switch": switch, "on_progress": on_progress, "ch": ch})
         for j in jobs:
-            for t in j["w"] + j["r"]:
+            late = j["ch"]["combine"] == "late"      # nothing is read on the client before the switch
+            for t in j["w"] + (j["r"][2:] if late else j["r"]):
                 t.start()
         end = time.time() + watchdog
         for j in jobs:
@@ -519,6 +526,21 @@ def run_e2e(scn, watchdog=120.0):
                 j["c"].shutdown_write()
             except Exception as e:  # noqa
                 problems.append("closing: %r" % (e,))
+            if j["ch"]["combine"] == "late":
+                c, down = j["c"], j["down"]
+                if j["ch"]["late_close"]:        # the peer also closes (after its reader has seen our EOF)
+                    j["r"][2].join(max(0.0, end - time.time()))
+                    j["s"].close()
+                while time.time() < end and not (c.exit_status_ready() and c.eof_received
+                                                 and (c.closed or not j["ch"]["late_close"])):
+                    time.sleep(0.002)
+                if not (c.exit_status_ready() and c.eof_received):
+                    problems.append("exit status / EOF did not arrive within the watchdog")
+                down["comb_t0"] = stamp()
+                c.set_combine_stderr(True)
+                down["comb_t1"] = stamp()
+                for t in j["r"][:2]:
+                    t.start()
         for j in jobs:
             for t in j["r"]:
                 t.join(max(0.0, end - time.time()))
@@ -562,6 +584,8 @@ def combine_programs(rnd, n):
             "R_err": [rnd.choice([1, 3, 64]) for _ in range(rnd.choice([0, 1, 2]))],
             "A_reads": rnd.choice([0, 1]),
         })
+        if rnd.random() < 0.4:           # the peer's EOF / CLOSE ends the transport thread's script
+            progs[-1]["T"].append((rnd.choice(["eof", "close"]), 0))
         if progs[-1]["R_out"]:            # one reader per endpoint: two racing readers have no observable order
             progs[-1]["A_reads"] = 0
     return progs
@@ -576,6 +600,7 @@ def combine_scenario(prog, seed=1):
     n_err = prog["init_err"] + sum(n for s, n in prog["T"] if s == "err")
     book = Codebook(seed, 0)
     d_out, d_err = book.make(0, n_out), book.make(1, n_err)
+    quiet_logs()
 
     def scenario(S):
         ch, ft = dchan.make_channel()
@@ -615,7 +640,12 @@ def combine_scenario(prog, seed=1):
 
         def tbody():
             for stream, n in prog["T"]:
-                feed(stream, n)
+                if stream == "eof":
+                    ch._handle_eof(None)
+                elif stream == "close":
+                    ch._handle_close(None)
+                else:
+                    feed(stream, n)
 
         def abody():
             trace["comb_t0"] = stamp()
@@ -720,6 +750,8 @@ def replay_behaviour(hist, chans, max_bytes, scale, seed):
             _, c, v = st
             wire.append((c, 2, v, 0))
             trace[c]["status_sent"] = v
+        elif kind in (6, 7):                      # the peer's shutdown_write() / close()
+            wire.append((st[1], 3 if kind == 6 else 4, 0, 0))
         elif kind == 3:
             c, si, pos, n = wire.pop(0)
             if (c, si) != (st[1], st[2]):
@@ -728,6 +760,10 @@ def replay_behaviour(hist, chans, max_bytes, scale, seed):
                 chs[c]._feed(dchan.msg_data(data[(c, 0)][pos * scale:(pos + n) * scale]))
             elif si == 1:
                 chs[c]._feed_extended(dchan.msg_ext(1, data[(c, 1)][pos * scale:(pos + n) * scale]))
+            elif si == 3:
+                chs[c]._handle_eof(None)
+            elif si == 4:
+                chs[c]._handle_close(None)
             else:
                 m = Message()
                 m.add_string("exit-status")
